@@ -68,11 +68,11 @@ def stochIptw (pl : Plan F) (g : Row F → F) (l : List (Row F)) : Option F :=
 def haw (pl : Plan F) (g : Row F → F) (r : Row F) : Option F :=
   (planNumer pl r).map fun nu => nu / recv r.a (g r)
 
-/-- the plan probability of treatment as a function of the covariate stratum, standardized mixture:
-    `Σ_s N_s (π_s ȳ_{s1} + (1-π_s) ȳ_{s0}) / Σ_s N_s` -/
-def mixture (l : List (Row F)) (S : List Nat) (π : Nat → F) : F :=
-  sumBy (fun s => W (inStratum s) l * (π s * cellMean l s true + (((1 : Nat) : F) - π s) * cellMean l s false)) S /
-  sumBy (fun s => W (inStratum s) l) S
+/-- standardized mixture for plan probabilities `π` given per covariate stratum:
+    `Σ_s N_s (π_s ȳ_{s1} + (1-π_s) ȳ_{s0}) / Σ_s N_s`, `N_s` the weight of the target rows (`tm`) in stratum `s` -/
+def mixture (l : List (Row F)) (S : List Nat) (tm : Row F → Bool) (π : Nat → F) : F :=
+  sumBy (fun s => Ntgt tm l s * (π s * cellMean l s true + (((1 : Nat) : F) - π s) * cellMean l s false)) S /
+  sumBy (fun s => Ntgt tm l s) S
 
 /-! ### The simulating estimators as functions of the draws -/
 
@@ -92,14 +92,19 @@ def mcMean (l : List (Row F)) (Q : Row F → Bool → F) (upd : F → F) (tm : R
 /-- `np.mean(marginals)` over the resamples -/
 def meanOf (xs : List F) : F := sumBy (fun x => x) xs / ((xs.length : Nat) : F)
 
-/-- realised treated fraction of stratum `s` under an assignment -/
-def realised (l : List (Row F)) (asg : Row F → Bool) (s : Nat) : F :=
-  W (fun r => inStratum s r && asg r) l / W (inStratum s) l
+/-- realised treated fraction, under an assignment, of the target rows of stratum `s` -/
+def realised (l : List (Row F)) (tm : Row F → Bool) (asg : Row F → Bool) (s : Nat) : F :=
+  W (fun r => inStratum s r && tm r && asg r) l / Ntgt tm l s
 
 end
 
 /-- size of the treated set requested from `np.random.choice`: `int(p * n)`; `fl` is the carrier's floor
     (truncation of a non-negative number) -/
 def planSize {F : Type} [Mul F] [NatCast F] (fl : F → Nat) (p : F) (n : Nat) : Nat := fl (p * ((n : Nat) : F))
+
+/-- StochasticTMLE step 4: `odds_to_probability(exp(log(probability_to_odds(q)) + ε))` -/
+def tmleUpd {F : Type} [Add F] [Sub F] [Div F] [NatCast F] [Transc F] (ε : F) (q : F) : F :=
+  let o := Transc.exp (Transc.log (q / (((1 : Nat) : F) - q)) + ε)
+  o / (((1 : Nat) : F) + o)
 
 end ZV.Stoch
